@@ -13,6 +13,8 @@ EXTENDS LayoutLib, TLC, Json
 
 CONSTANTS Counts,        \* list lengths explored (players, teams, extra variables)
           StrLens,       \* Unreal 2 string lengths explored
+          TeamCounts,    \* numbers of teams explored (GameSpy 2 / 3)
+          PartCounts,    \* numbers of parts / packets explored (GameSpy 1 / 3)
           Emit
 
 VARIABLES proto, sec, shape, done
@@ -79,7 +81,7 @@ Quake(s) ==
 (* GameSpy 1: \key\value ... in 1..n parts, each ending \queryid\Q.P and the last one carrying \final\ *)
 Gs1Known == <<"hostname", "mapname", "maptitle", "AdminEMail", "AdminName", "admin", "password", "gametype", "gamever",
               "maxplayers", "minplayers", "tournament", "final", "queryid">>
-Gs1Shapes == [players : Counts, extras : {0, 2}, opt : BOOLEAN, pname : {"player", "playername"}, parts : 1 .. 3,
+Gs1Shapes == [players : Counts, extras : {0, 2}, opt : BOOLEAN, pname : {"player", "playername"}, parts : PartCounts,
               pw : {"bool", "num"}]
 Gs1Ok(s) == TRUE
 KV(key, f, ty) == <<Txt("\\" \o key \o "\\"), Fx(f, ty, "\\")>>
@@ -122,7 +124,7 @@ Gs1(s) ==
 -----------------------------------------------------------------------------
 (* GameSpy 2: 00, request id, (key 00 value 00)*, 00, player table, team table *)
 Gs2Known == <<"hostname", "mapname", "password", "maxplayers", "minplayers", "numplayers">>
-Gs2Shapes == [players : Counts, teams : {0, 1, 2}, extras : {0, 2}, min : BOOLEAN, num : {"absent", "equal", "more", "less"}]
+Gs2Shapes == [players : Counts, teams : TeamCounts \cup {1}, extras : {0, 2}, min : BOOLEAN, num : {"absent", "equal", "more", "less"}]
 Gs2Ok(s) == s.num = "less" => s.players > 0
 Z(f, ty) == <<F(f, ty)>>
 KVZ(key, f, ty) == <<Txt(key), Lit(NUL), Fx(f, ty, ""), Lit(NUL)>>
@@ -158,7 +160,7 @@ Gs2(s) ==
 (* data of the first packet: (key 00 value 00)* 00; then section 01 = player fields, 02 = team        *)
 (* fields; a field is: name 00, index of the first value, values 00 ..., 00.                          *)
 Gs3Known == <<"hostname", "mapname", "password", "gametype", "gamever", "maxplayers", "minplayers", "numplayers", "tournament">>
-Gs3Shapes == [players : Counts, teams : {0, 2}, extras : {0, 2}, opt : BOOLEAN, num : {"absent", "equal", "more", "less", "zero"}, packets : 1 .. 3]
+Gs3Shapes == [players : Counts, teams : TeamCounts, extras : {0, 2}, opt : BOOLEAN, num : {"absent", "equal", "more", "less", "zero"}, packets : PartCounts]
 \* every packet carries something: a server does not send empty packets; reporting fewer players than listed needs a listed player
 Gs3Ok(s) == (s.packets > 1 => s.players >= s.packets) /\ (s.num \in {"less", "zero"} => s.players >= 1)
 \* reported-vs-listed override (GameSpy 3, JC2M): players_online = max(reported, listed)
